@@ -1033,19 +1033,23 @@ package godi
 //@        && (forall i int :: 0 <= i && i < len(r.allDescriptors) ==> r.allDescriptors[i] == old(r.allDescriptors)[i])
 //@   ensures[C17] partial_registrations_are_rolled_back: result != nil && ncalls("collection.registerDescriptor") >= 2 ==> ncalls("collection.rollbackTo") == 1
 //@        && callarg("collection.rollbackTo", 0, 0) == r && callarg("collection.rollbackTo", 0, 1) == len(old(r.allDescriptors))
+//@   ghost linked bool
+//@   at after loop 3 : ghost linked := true
+//@   at after loop 6 : ghost linked := true
+//@   ensures[C04] outputs_of_one_registration_are_linked: result == nil && linked ==> (forall c int :: 0 <= c && c < ncalls("collection.registerDescriptor") ==>
+//@        len(callarg("collection.registerDescriptor", c, 1, "*Descriptor").outputs) == ncalls("collection.registerDescriptor")
+//@        && callarg("collection.registerDescriptor", c, 1, "*Descriptor").outputs[c] == callarg("collection.registerDescriptor", c, 1, "*Descriptor"))
+//@   loop 3
+//@     invariant linked_so_far: forall i int :: 0 <= i && i < idx ==> outputs[i].outputs == outputs
+//@   loop 6
+//@     invariant linked_so_far: forall i int :: 0 <= i && i < idx ==> outputs[i].outputs == outputs
 //@   loop 1
 //@     invariant no_registration_yet: ncalls("collection.registerDescriptor") == 0 && ncalls("reflection.Analyzer.Analyze") == 0 && ncalls("addOptions.Validate") == 0
 //@        && ncalls("newDescriptorWithAnalyzer") == 1 && callret("newDescriptorWithAnalyzer", 0, 1) == nil && ncalls("Descriptor.Validate") == 1 && callret("Descriptor.Validate", 0, 0) == nil
 //@        && descriptor != nil && descriptor.Lifetime == lifetime && options != nil && fresh(options)
 //@   loop 2
-//@     invariant build_list_grows: mark == len(old(r.allDescriptors)) && len(r.allDescriptors) >= mark && ncalls("collection.rollbackTo") == 0
-//@        && (forall i int :: 0 <= i && i < mark ==> r.allDescriptors[i] == old(r.allDescriptors)[i])
-//@        && (forall i int :: 0 <= i && i < len(r.allDescriptors) ==> r.allDescriptors[i] != nil) && regmaps(r)
-//@     invariant all_succeeded_so_far: forall c int :: 0 <= c && c < ncalls("collection.registerDescriptor") ==> callret("collection.registerDescriptor", c, 0) == nil
-//@        && callarg("collection.registerDescriptor", c, 0) == r && callarg("collection.registerDescriptor", c, 1, "*Descriptor") != nil && callarg("collection.registerDescriptor", c, 1, "*Descriptor").Lifetime == lifetime
-//@     invariant phase: ncalls("newDescriptorWithAnalyzer") == 1 && callret("newDescriptorWithAnalyzer", 0, 1) == nil && ncalls("Descriptor.Validate") == 1 && callret("Descriptor.Validate", 0, 0) == nil
-//@        && ncalls("addOptions.Validate") == 1 && callret("addOptions.Validate", 0, 0) == nil && ncalls("reflection.Analyzer.Analyze") == 1 && callret("reflection.Analyzer.Analyze", 0, 1) == nil && descriptor != nil && descriptor.Lifetime == lifetime
-//@   loop 4
+//@     invariant outputs_nonnil: forall i int :: 0 <= i && i < len(outputs) ==> outputs[i] != nil
+//@     invariant outputs_are_the_registered: len(outputs) == ncalls("collection.registerDescriptor") && (forall i int :: 0 <= i && i < len(outputs) ==> outputs[i] == callarg("collection.registerDescriptor", i, 1, "*Descriptor"))
 //@     invariant build_list_grows: mark == len(old(r.allDescriptors)) && len(r.allDescriptors) >= mark && ncalls("collection.rollbackTo") == 0
 //@        && (forall i int :: 0 <= i && i < mark ==> r.allDescriptors[i] == old(r.allDescriptors)[i])
 //@        && (forall i int :: 0 <= i && i < len(r.allDescriptors) ==> r.allDescriptors[i] != nil) && regmaps(r)
@@ -1054,6 +1058,16 @@ package godi
 //@     invariant phase: ncalls("newDescriptorWithAnalyzer") == 1 && callret("newDescriptorWithAnalyzer", 0, 1) == nil && ncalls("Descriptor.Validate") == 1 && callret("Descriptor.Validate", 0, 0) == nil
 //@        && ncalls("addOptions.Validate") == 1 && callret("addOptions.Validate", 0, 0) == nil && ncalls("reflection.Analyzer.Analyze") == 1 && callret("reflection.Analyzer.Analyze", 0, 1) == nil && descriptor != nil && descriptor.Lifetime == lifetime
 //@   loop 5
+//@     invariant outputs_nonnil: forall i int :: 0 <= i && i < len(outputs) ==> outputs[i] != nil
+//@     invariant outputs_are_the_registered: len(outputs) == ncalls("collection.registerDescriptor") && (forall i int :: 0 <= i && i < len(outputs) ==> outputs[i] == callarg("collection.registerDescriptor", i, 1, "*Descriptor"))
+//@     invariant build_list_grows: mark == len(old(r.allDescriptors)) && len(r.allDescriptors) >= mark && ncalls("collection.rollbackTo") == 0
+//@        && (forall i int :: 0 <= i && i < mark ==> r.allDescriptors[i] == old(r.allDescriptors)[i])
+//@        && (forall i int :: 0 <= i && i < len(r.allDescriptors) ==> r.allDescriptors[i] != nil) && regmaps(r)
+//@     invariant all_succeeded_so_far: forall c int :: 0 <= c && c < ncalls("collection.registerDescriptor") ==> callret("collection.registerDescriptor", c, 0) == nil
+//@        && callarg("collection.registerDescriptor", c, 0) == r && callarg("collection.registerDescriptor", c, 1, "*Descriptor") != nil && callarg("collection.registerDescriptor", c, 1, "*Descriptor").Lifetime == lifetime
+//@     invariant phase: ncalls("newDescriptorWithAnalyzer") == 1 && callret("newDescriptorWithAnalyzer", 0, 1) == nil && ncalls("Descriptor.Validate") == 1 && callret("Descriptor.Validate", 0, 0) == nil
+//@        && ncalls("addOptions.Validate") == 1 && callret("addOptions.Validate", 0, 0) == nil && ncalls("reflection.Analyzer.Analyze") == 1 && callret("reflection.Analyzer.Analyze", 0, 1) == nil && descriptor != nil && descriptor.Lifetime == lifetime
+//@   loop 7
 //@     invariant build_list_grows: mark == len(old(r.allDescriptors)) && len(r.allDescriptors) >= mark && ncalls("collection.rollbackTo") == 0
 //@        && (forall i int :: 0 <= i && i < mark ==> r.allDescriptors[i] == old(r.allDescriptors)[i])
 //@        && (forall i int :: 0 <= i && i < len(r.allDescriptors) ==> r.allDescriptors[i] != nil) && regmaps(r)
